@@ -6,7 +6,7 @@ import vlib
 def run(tier, seed, replay=None):
     ck = vlib.Check("C18", tier, seed, "model_checking")
     binary = vlib.build_harness()
-    c = dict(Ids='{"P","Q"}', EXPORT=True, FIXED=True)
+    c = dict(Ids='{"P","Q"}' if tier == "quick" else '{"P","Q","R"}', EXPORT=True, FIXED=True)
     r = vlib.tlc("SignedRequest", ("c18.cfg", vlib.cfg_text(c, ["Agree", "ExportCase"])), workers=4, timeout=900, tag="c18")
     ck.add_tlc("SignedRequest", r, "made-for kind x read-as kind x named provider x signing key x alteration")
     m = vlib.tlc("SignedRequest", ("c18m.cfg", vlib.cfg_text(dict(c, EXPORT=False, FIXED=False), ["Agree"])), workers=2, timeout=900, tag="c18m")
